@@ -20,11 +20,22 @@ func (e *ptrLeaf) Error() string { return fmt.Sprintf("L%d", e.id) }
 
 type tyErr0 struct{ id int }
 type tyErr1 struct{ id int }
-type tyErr2 struct{ id int }
+
+// tyErr2 is an error type that is NOT comparable (used by value, with a slice field): `==` between two
+// interface values holding it panics, which is why errors.Is guards its identity test by a
+// comparability check; it is found through its Is method (same id).
+type tyErr2 struct {
+	id   int
+	tags []string
+}
 
 func (e *tyErr0) Error() string { return fmt.Sprintf("T0.%d", e.id) }
 func (e *tyErr1) Error() string { return fmt.Sprintf("T1.%d", e.id) }
-func (e *tyErr2) Error() string { return fmt.Sprintf("T2.%d", e.id) }
+func (e tyErr2) Error() string { return fmt.Sprintf("T2.%d", e.id) }
+func (e tyErr2) Is(t error) bool {
+	o, ok := t.(tyErr2)
+	return ok && o.id == e.id
+}
 
 type multiErr struct {
 	id int
@@ -57,7 +68,9 @@ func newC12env() *c12env {
 
 func (env *c12env) reg(id int, label string, err error) error {
 	env.byID[id] = err
-	env.labels[err] = label
+	if _, unc := err.(tyErr2); !unc {
+		env.labels[err] = label
+	}
 	return err
 }
 
@@ -117,7 +130,7 @@ func (env *c12env) eval(s *Sexp) error {
 		case 1:
 			return env.reg(id, lbl, &tyErr1{id})
 		default:
-			return env.reg(id, lbl, &tyErr2{id})
+			return env.reg(id, lbl, tyErr2{id, []string{"uncomparable"}})
 		}
 	case "W":
 		id := args[0].Int()
@@ -160,6 +173,9 @@ func (env *c12env) eval(s *Sexp) error {
 }
 
 func (env *c12env) label(e error) string {
+	if u, ok := e.(tyErr2); ok {
+		return fmt.Sprintf("T2.%d", u.id)
+	}
 	if l, ok := env.labels[e]; ok {
 		return l
 	}
@@ -200,7 +216,7 @@ func c12case(s *Sexp) string {
 		as := make([]string, 4)
 		var t0 *tyErr0
 		var t1 *tyErr1
-		var t2 *tyErr2
+		var t2 tyErr2
 		as[0], as[1], as[2], as[3] = "-", "-", "-", "-"
 		var ce ers.Error
 		if errors.As(r, &ce) {
